@@ -402,9 +402,20 @@ def make_except_as(log):
     return target
 
 
-def make_nested_async(log):
-    import asyncio
+def _drive(coro):
+    """run a coroutine that never suspends to completion, without an event loop (never converted: marked as an artifact)"""
+    try:
+        coro.send(None)
+    except StopIteration as stop:
+        return stop.value
+    coro.close()
+    return 'suspended'
 
+
+_drive.autograph_info__ = None
+
+
+def make_nested_async(log):
     def target(a=0, b=2, *rest, k=3, **kw):
         conv = _probe()
 
@@ -414,8 +425,94 @@ def make_nested_async(log):
             return ('co', 0)
         r = ('A', a, b, rest, k, sorted(kw.items()))
         log.append(('run', conv) + r)
-        return r + (asyncio.run(co()),)
+        return r + (_drive(co()),)
     return target
+
+
+class FailC(object):
+    """methods whose conversion FAILS for a reason inside their body; variable-arity and fixed-arity signatures"""
+    CLSTAG = 'CLS'
+    CLSLOG = GLOG
+
+    def __init__(self, log, tag='SELF'):
+        self.log = log
+        self.tag = tag
+        self.__x = 'priv'
+
+    def m_forelse(self, a=0, b=2, *rest, k=3, **kw):
+        conv = _probe()
+        for i in rest:
+            pass
+        else:
+            r = ('E', self.tag, a, b, rest, k, sorted(kw.items()))
+        self.log.append(('run', conv) + r)
+        return r
+
+    def m_mangled(self, a=0, b=2, *rest, k=3, **kw):
+        conv = _probe()
+        if a:
+            r = ('M', self.tag, a, b, rest, k, sorted(kw.items()))
+        else:
+            r = ('m', self.tag, a, b, rest, k, sorted(kw.items()))
+        self.log.append(('run', conv) + r)
+        return r + (self.__x,)
+
+    def m_fixed(self, a, b):
+        conv = _probe()
+        for i in (a, b):
+            pass
+        else:
+            r = ('E', self.tag, a, b)
+        self.log.append(('run', conv) + r)
+        return r
+
+    @classmethod
+    def cm_forelse(cls, a=0, b=2, *rest, k=3, **kw):
+        conv = _probe()
+        for i in rest:
+            pass
+        else:
+            r = ('E', cls.CLSTAG, a, b, rest, k, sorted(kw.items()))
+        cls.CLSLOG.append(('run', conv) + r)
+        return r
+
+    @classmethod
+    def cm_fixed(cls, a, b):
+        conv = _probe()
+        n = 0
+        while n < 1:
+            n += 1
+        else:
+            r = ('W', cls.CLSTAG, a, b)
+        cls.CLSLOG.append(('run', conv) + r)
+        return r
+
+    @staticmethod
+    def sm_whileelse(a=0, b=2, *rest, k=3, **kw):
+        conv = _probe()
+        n = 0
+        while n < len(rest):
+            n += 1
+        else:
+            r = ('W', a, b, rest, k, sorted(kw.items()))
+        GLOG.append(('run', conv) + r)
+        return r
+
+    @staticmethod
+    def sm_fixed(a, b):
+        conv = _probe()
+        for i in (a,):
+            pass
+        else:
+            r = ('E', a, b)
+        GLOG.append(('run', conv) + r)
+        return r
+
+
+def make_fail_class(log):
+    class K(FailC):
+        CLSLOG = log
+    return K
 
 
 def traced(fn, log):
@@ -836,6 +933,31 @@ def build(name, env, log):
     if base == 'staticmethod_obj':   # a staticmethod object is callable (3.10+), through a native __call__
         o = staticmethod(Z.make_fn(log))
         return Built(o, default_facts(kind='callableObject', has_code=False, cacheable=cacheable_by_python(o), ent=ent(mod=M)))
+
+    # ---- methods whose conversion fails (fallback with a receiver): variable-arity and fixed-arity signatures
+    FAILF = ('featureCheck', 'unsupportedElement')
+    FIXED = [(('v1', 'v2'), None), (('v1',), {'b': 'vb'}), ((), {'a': 'va', 'b': 'vb'}), (('v1',), None)]
+    if base in ('bound_forelse', 'bound_mangled'):
+        o = Z.FailC(log)
+        f = o.m_forelse if base == 'bound_forelse' else o.m_mangled
+        return Built(f, default_facts(kind='method', ent=method_ent(M, M), fail=FAILF), self_val='SELF', binds=True)
+    if base == 'bound_fixed_forelse':
+        o = Z.FailC(log)
+        return Built(o.m_fixed, default_facts(kind='method', ent=method_ent(M, M), fail=FAILF), self_val='SELF', binds=True,
+                     loggable=False, sig=FIXED)
+    if base in ('classm_forelse', 'classm_inst_forelse'):
+        K = Z.make_fail_class(log)
+        f = K.cm_forelse if base == 'classm_forelse' else K(log).cm_forelse
+        return Built(f, default_facts(kind='method', ent=method_ent(M, M), fail=FAILF), self_val='CLS', binds=True)
+    if base == 'classm_fixed_whileelse':
+        K = Z.make_fail_class(log)
+        return Built(K.cm_fixed, default_facts(kind='method', ent=method_ent(M, M), fail=FAILF), self_val='CLS', binds=True,
+                     loggable=False, sig=FIXED)
+    if base in ('staticm_whileelse', 'staticm_inst_whileelse'):
+        f = Z.FailC.sm_whileelse if base == 'staticm_whileelse' else Z.FailC(log).sm_whileelse
+        return Built(f, default_facts(ent=ent(mod=M), fail=FAILF), log=Z.GLOG)
+    if base == 'staticm_fixed_forelse':
+        return Built(Z.FailC.sm_fixed, default_facts(ent=ent(mod=M), fail=FAILF), log=Z.GLOG, loggable=False, sig=FIXED)
 
     # ---- callable objects
     if base == 'callobj':
